@@ -164,6 +164,31 @@ impl<T> DualLinkedList<T> {
     }
 }
 
+#[cfg(petrichorit_des_verif)]
+impl<T> DualLinkedList<T> {
+    /// The `(time, id)` of every node front to back, and whether the prev/next
+    /// links are symmetric and the cached length is correct.
+    pub(super) fn verif_items(&self) -> (Vec<(Duration, usize)>, bool) {
+        let mut items = Vec::new();
+        let mut ok = true;
+        let head_ptr: *const EventNode<T> = &*self.head;
+        let mut prev = head_ptr;
+        let mut cur: *const EventNode<T> = self.head.next;
+        unsafe {
+            while !(*cur).next.is_null() {
+                ok &= std::ptr::eq((*cur).prev, prev);
+                items.push(((*cur).time, (*cur).id));
+                prev = cur;
+                cur = (*cur).next;
+            }
+            ok &= std::ptr::eq((*cur).prev, prev);
+            ok &= std::ptr::eq(cur, &*self.tail);
+        }
+        ok &= items.len() == self.len;
+        (items, ok)
+    }
+}
+
 impl<T> Drop for DualLinkedList<T> {
     fn drop(&mut self) {
         while self.pop_min().is_some() {}
